@@ -113,7 +113,7 @@ pub struct Tx {
     pub t_ns: u64,
     /// 0 position (airborne or surface, from the truth), 1 identification,
     /// 2 velocity, 3 DF11, 4 DF4, 5 DF5, 6 Comm-B / other from the corpus,
-    /// 7 Mode-AC reply (2 bytes, no address), 8 DF0
+    /// 7 Mode-AC reply (2 bytes, no address), 8 DF0, 9 DF17 type code 0 (no position)
     pub kind: u8,
     pub odd: bool,
     /// selector for kind 6 / the type code of positions
@@ -210,6 +210,7 @@ fn frame_of(plan: &PipelinePlan, tx: &Tx) -> Option<(Vec<u8>, Option<world::Trut
             }
             (f, Some(truth))
         }
+        9 => (world::df17(ac.icao, 5, (world::ac12_25ft(truth.alt as i32) as u64) << 36), None),
         1 => (world::df17_identification(ac.icao, 1 + tx.sel % 4, 3, &ac.callsign), None),
         2 => {
             let h = truth.heading.to_radians();
@@ -315,7 +316,7 @@ impl Scenario for Pipeline {
                 txs.push(Tx { ac: a as u8, t_ns: (r.t_enc * 1e9) as u64, kind: 0, odd: r.odd, sel: rng.byte() });
                 // other traffic of the same transponder around it
                 if rng.chance(0.35) {
-                    let kind = *rng.pick(&[1u8, 2, 2, 3, 4, 4, 5, 6, 6, 7, 8]);
+                    let kind = *rng.pick(&[1u8, 2, 2, 3, 4, 4, 5, 6, 6, 7, 8, 9]);
                     txs.push(Tx {
                         ac: a as u8,
                         t_ns: ((r.t_enc + rng.frange(0.01, 0.4)) * 1e9) as u64,
